@@ -493,6 +493,26 @@ class Model:
         # optional inputs are parameters too; they are never persisted as parameters (their key enters via inputs)
         return '###'.join(reprs) if reprs else None
 
+    def param_reprs(self, fn):
+        """representation of EVERY parameter value (what the run info records), persisted or not"""
+        ti = self.tasks[fn]
+        out = {}
+        for p in ti.decl.get('params', []):
+            v = ti.raw[p['name']]
+            if p.get('dtype') == 'Path' and v is not None:
+                out[p['name']] = repr(v.original) if isinstance(v, PStr) else repr(v)
+            else:
+                out[p['name']] = vrepr(v).replace('<mod>', self.modlast)
+        return out
+
+    def config_name(self, cid):
+        c = self.d['configs'][cid]
+        if c['medium'] == 'part':
+            return f"{(c.get('file') or cid).rsplit('.', 1)[0]}#{c['part']}"
+        if c['medium'] == 'inline':
+            return c.get('cname', cid)
+        return (c.get('file') or cid).rsplit('.', 1)[0] if c.get('file') else cid
+
     def key_text(self, fn):
         ti = self.tasks[fn]
         ins = []
